@@ -208,6 +208,38 @@ def check_program(m, mod, res, case_base, icount):
         HandlerCollection.current.set(None)
 
 
+# Hand-written shapes that the program generator does not produce, checked with the same symtable
+# oracle: a function using its own name, parameters / declared globals rebound by except, import and
+# class statements, locals sharing their name with the parameter of a nested function or lambda.
+SHAPES = [
+    "def f(n):\n    if n <= 1:\n        return 1\n    return n * f(n - 1)\n",
+    "def f(err):\n    try:\n        return 1 / err\n    except ZeroDivisionError as err:\n        return str(err)\n",
+    "def f(os):\n    import os\n    return os\n",
+    "def f(path):\n    from os import path\n    return path\n",
+    "def f(K):\n    class K:\n        pass\n    return K\n",
+    "def f():\n    global json\n    import json\n    return json\n",
+    "def f(x):\n    global E\n    try:\n        return 1 / x\n    except ZeroDivisionError as E:\n        return 0\n",
+    "def f():\n    global K\n    class K:\n        pass\n    return K\n",
+    "def f():\n    global F\n    def F():\n        return 1\n    return F\n",
+    "def f(w):\n    t = w\n    k = (lambda t: t)(w)\n    return t + k\n",
+    "def f(w):\n    t = w\n    def g(t, u=w):\n        return t\n    return g(t)\n",
+    "def f(w):\n    t = [w for w in range(3)]\n    return t, w\n",
+    "def f(w):\n    match w:\n        case [a, *b]:\n            return a\n        case {'k': c, **d}:\n            return c\n        case str() as s:\n            return s\n    return None\n",
+    "def f(w):\n    async def co(z):\n        return z + w\n    return co\n",
+    "def f(w):\n    g = lambda: (y := w)\n    y = 0\n    return g() + y\n",
+]
+
+
+def check_shapes(scratch, res, icount):
+    for k, src in enumerate(SHAPES):
+        mod = prorun.load_src(src, scratch, f"c10shape_{k}")
+        tab = f_table(src)
+        params = [s_.get_name() for s_ in tab.get_symbols() if s_.is_parameter()]
+        m = {"src": src, "params": params}
+        check_program(m, mod, res, {"shape": k, "program": src}, icount)
+        res.count("hand_written_shapes")
+
+
 UNTOOLABLE_SRC = '''
 import functools
 class Cls:
@@ -287,6 +319,8 @@ def run_shard(spec):
     icount = InteractCount()
     s0, cnt = spec["range"]
     check_untoolable(spec["scratch"], res, icount, s0)
+    if s0 == 0:
+        check_shapes(spec["scratch"], res, icount)
     for i in range(s0, s0 + cnt):
         rnd = rng_for("C10", spec["seed"], i)
         opts = {"max_stmts": spec.get("max_stmts", 8)}
